@@ -346,3 +346,104 @@ def k7(i, b, hasdoc, n):
     if req2 != req1:
         return "re-emitting the parsed interface changes required: %r -> %r" % (req1, req2)
     return ""
+
+
+# K8: 0..8 parameters - ANY subset of eight JSON-representable parameter kinds, defaults on or off per a second mask ---------------------------------------
+P8 = (("a", "int", 3), ("b", "Optional[str]", "s"), ("c", "bool", False), ("d", "float", -0.5), ("e", "Literal['np', 'tf']", "tf"), ("f", "list", None),
+      ("g", "dict", None), ("h", "Optional[float]", 0.0))
+
+
+def _k8(lo, hi):
+    def body(mask, dmask, x):
+        import json
+
+        from cdd.json_schema.emit import json_schema as emit
+        from cdd.json_schema.parse import json_schema as parse
+
+        ps = OrderedDict()
+        for i, (n, t, d) in enumerate(P8):
+            if mask & (1 << i):
+                p = {"typ": t, "doc": "the " + (chr(x) if i == 1 or i == 4 else "q") + " one"}
+                if d is not None and dmask & (1 << i):
+                    p["default"] = d
+                ps[n] = p
+        ir = {"name": "N", "doc": "Header.", "params": OrderedDict((k, dict(v)) for k, v in ps.items()), "returns": None}
+        sch = emit(ir)
+        props = sch.get("properties")
+        if not isinstance(props, dict) or list(props.keys()) != list(ps.keys()):
+            return "properties do not list the parameters in order"
+        for k, p in props.items():
+            d = _prop_ok(p)
+            if d:
+                return "%s: %s" % (k, d)
+        want_req = [k for k, v in ps.items() if not v["typ"].startswith("Optional[")]
+        if list(sch.get("required", ())) != want_req:
+            return "required %r, expected %r" % (sch.get("required"), want_req)
+        back = parse(sch)
+        if list(back["params"]) != list(ps):
+            return "parameter names/order changed: %r" % (list(back["params"]),)
+        for k, v in ps.items():
+            g = back["params"][k]
+            gt, vt = g.get("typ"), v["typ"]
+            if gt != vt and not (vt.startswith("Literal[") and gt is not None and gt.startswith("Literal[") and sorted(gt[8:-1].split(", ")) == sorted(vt[8:-1].split(", "))):
+                return "param %s: type changed %r -> %r" % (k, vt, gt)
+            if ("default" in v) != ("default" in g) or ("default" in v and (g["default"] != v["default"] or type(g["default"]) is not type(v["default"]))):
+                return "param %s: default changed %r -> %r" % (k, v.get("default"), g.get("default"))
+            if (g.get("doc") or "").rstrip(".") != v["doc"].rstrip("."):
+                return "param %s: description changed %r -> %r" % (k, v["doc"], g.get("doc"))
+        return ""
+
+    body.__name__ = "K8_%d_%d" % (lo, hi)
+    return body
+
+
+for _lo in range(0, 256, 32):
+    ob("C06", "K8.subset.m%03d" % _lo, {"mask": R(_lo, _lo + 31), "dmask": R(0, 255), "x": PR}, tier="quick" if _lo in (0, 96, 224) else "thorough", T=900, tpath=60,
+       funcs=["cdd.json_schema.emit.json_schema", "cdd.json_schema.parse.json_schema", EMIT, PARSE],
+       bound="ANY subset (mask %d..%d of 0..255) of the eight parameters %r, each default present or absent per a second 8-bit mask, a symbolic printable character in two descriptions: "
+             "properties in order, per-property meta typing, required == non-Optional names, parse(emit(ir)) gives back names, order, types (Literal members as a set), defaults, descriptions"
+             % (_lo, _lo + 31, [(n, t) for n, t, _ in P8]))(_k8(_lo, _lo + 31))
+
+
+# K9: parameter NAMES that other parts of the code base treat specially (kwargs/args suffixes, receiver names, schema keywords, leading underscore/asterisks) ------
+NAMES9 = ("g", "loader_kwargs", "kwargs", "args", "x_kwargs_y", "self", "cls", "return_type", "id", "type", "description", "default", "required", "properties", "_p", "N", "$ref",
+          "a.b", "*args", "**kw", "pattern", "Optional")
+KINDS9 = (("dict", None), ("int", 3), ("Optional[str]", "s"), ("Literal['np', 'tf']", "tf"), ("bool", None), ("Optional[dict]", None))
+
+
+@ob("C06", "K9.names", {"n": R(0, len(NAMES9) - 1), "k": R(0, len(KINDS9) - 1), "second": BOOL}, T=900, tpath=60,
+    funcs=["cdd.json_schema.emit.json_schema", "cdd.json_schema.parse.json_schema", EMIT, PARSE],
+    bound="one parameter named ANY of %r with type/default ANY of %r, first or second in the interface (solver-enumerated): listed in required exactly when not Optional, "
+          "and parse(emit(ir)) returns the same names, order, types and defaults" % (NAMES9, KINDS9))
+def k9(n, k, second):
+    from cdd.json_schema.emit import json_schema as emit
+    from cdd.json_schema.parse import json_schema as parse
+
+    name, (typ, d) = NAMES9[0], KINDS9[0]
+    for j in range(1, len(NAMES9)):
+        if n == j:
+            name = NAMES9[j]
+    for j in range(1, len(KINDS9)):
+        if k == j:
+            typ, d = KINDS9[j]
+    p = {"typ": typ, "doc": "the one"}
+    if d is not None:
+        p["default"] = d
+    z = ("z", {"typ": "int", "doc": "zed"})
+    ir = {"name": "N", "doc": "Header.", "params": OrderedDict((z, (name, p)) if second else ((name, p), z)), "returns": None}
+    want = [x for x in ir["params"] if not ir["params"][x]["typ"].startswith("Optional[")]
+    order = list(ir["params"])
+    from copy import deepcopy
+
+    sch = emit(deepcopy(ir))  # (whether the emitter leaves its argument alone is C10's hist.shared_ir.*)
+    if list(sch.get("required", ())) != want:
+        return "required is %r, expected %r (property %r of type %s)" % (sch.get("required"), want, name, typ)
+    back = parse(sch)
+    if list(back["params"]) != order:
+        return "parameter names/order changed: %r -> %r" % (order, list(back["params"]))
+    g = back["params"][name]
+    if g.get("typ") != typ:
+        return "param %s: type changed %r -> %r" % (name, typ, g.get("typ"))
+    if ("default" in p) != ("default" in g) or ("default" in p and g["default"] != p["default"]):
+        return "param %s: default changed %r -> %r" % (name, p.get("default"), g.get("default"))
+    return ""
